@@ -20,8 +20,11 @@ import vlib
 POOL = ["lambda_0", "lambda_1", "__default_1_x", "record_update_temp", "feed_global", "__dt0", "dsp2", "q",
         "a_very_long_identifier_name_of_forty_chars_x", "zzünï", "self_", "now_", "mem1", "delay_", "_x", "x_",
         "fn_", "letx", "closure_0", "state", "main_", "_mimium_getnow2", "ptr", "i64x", "tmp", "result", "float_", "t0"]
-JOBS = {"quick": [("f4", {"Template": '"f"', "Budget": 4, "Lits": "{1, 2}", "Ops": '{"+", "*"}'})],
-        "thorough": [("f5", {"Template": '"f"', "Budget": 5, "Lits": "{1}", "Ops": '{"+"}'}),
+SHADOW = {"Template": '"f"', "Lits": "{1}", "Ops": '{"+"}', "Helpers": "{}", "Prods": '{"let", "letsh", "asg", "now", "if"}'}
+JOBS = {"quick": [("f4", {"Template": '"f"', "Budget": 4, "Lits": "{1, 2}", "Ops": '{"+", "*"}'}),
+                  # lets that bind a name of an enclosing scope again, in nested expression positions
+                  ("shadow5", dict(SHADOW, Budget=5))],
+        "thorough": [("shadow6", dict(SHADOW, Budget=6)), ("f5", {"Template": '"f"', "Budget": 5, "Lits": "{1}", "Ops": '{"+"}'}),
                      ("dsp4", {"Template": '"dsp"', "UseInput": "TRUE", "Budget": 4})]}
 
 
@@ -36,6 +39,9 @@ def variants(prog, i):
     s = sigma_for(prog, i)
     if len(set(s.values())) == len(s):
         out.append(("rename", printer.program(transform.rename_prog(prog, s))))
+    us, n = transform.unshadow_prog(prog)
+    if n:
+        out.append(("unshadow", printer.program(us)))
     printer.STYLE.update(parens=True)
     out.append(("reparen", printer.program(prog)))
     printer.STYLE.update(parens=False, layout=True)
